@@ -18,6 +18,9 @@ Property theorems only (the proofs live in `Blue/Proofs/{Log,LogAny,LogHeader,Lo
 LogCrash,LogCrashAny,FsyncCore,Wcq,WcqV}.lean`).  The model (`Blue/Model/Log.lean`) is the writer `_append` /
 `append_split` / `true_up` and the reader `next_header` / `next_frame` / `next` of `sst/src/log.rs`
 over a parameter set `P` (block size, `HEADER_MAX_SIZE`, `TABLE_FULL_SIZE`, header codec, checksum).
+The reader's `true_up` reads the bytes it skips and refuses anything but the writer's zero padding
+(`padZero`; the repair of D-11, see C09): the round-trip theorems go through because the writer's
+padding is zero (`writer_padding_passes_check`).
 `Good P` is what the theorems need; `good_real` shows that the parameters *read out of the source*
 (`Blue.ConstsTie.extractedLogParams`, equal to the `realParams` the driver runs) satisfy it for any
 32-bit checksum, in particular for the CRC-32C the driver computes.
@@ -76,6 +79,12 @@ theorem log_roundtrip {P : Params} (g : Good P) (bufs : List (List Nat)) (pre : 
     (hsz : ∀ b ∈ bufs, b.length ≤ P.tableFull) :
     readAll P (pre ++ writeAll P bufs pre.length) (bufs.length + 1) pre.length = some bufs :=
   Blue.Log.log_roundtrip_any g bufs pre hsz
+
+/-- the bytes the writer's `true_up` pads with pass the reader's check of the bytes it skips
+    (`true_up` in `LogIterator`: all zero up to the block boundary), wherever the padding stands -/
+theorem writer_padding_passes_check (a c : List Nat) (n off t : Nat) (h1 : a.length ≤ off)
+    (h2 : t ≤ a.length + n) : padZero (a ++ zeros n ++ c) off t = true :=
+  Blue.Log.padZero_zeros _ a c n off t rfl h1 h2
 
 /-- the same for the real parameters with the driver's CRC-32C, the size bound being what
     `WriteBatch` accepts (`check_batch_size`: `BLOCK_SIZE`, extracted) -/
@@ -240,6 +249,7 @@ end Blue.Props.C12
 #print axioms Blue.Props.C12.good_driver
 #print axioms Blue.Props.C12.append_read
 #print axioms Blue.Props.C12.log_roundtrip
+#print axioms Blue.Props.C12.writer_padding_passes_check
 #print axioms Blue.Props.C12.log_roundtrip_real
 #print axioms Blue.Props.C12.truncated_log_prefix
 #print axioms Blue.Props.C12.readSome_take_prefix
